@@ -41,6 +41,11 @@ Oracle of the property statement itself (always run; independent of the Lean mod
     generic line-granularity scheduler with two real threads extracting real documents, incl. documents nested 1500 levels deep;
     order histories 'document before / after every lazily imported extractor module' run in pristine interpreters (a seeded
     permutation of the router's modules and its reverse, probe documents that declare unknown charset labels);
+  * TEMPLATE FAMILIES, SUSPENDED GENERATORS, CACHE WRAPPERS FOUND AT RUN TIME (c15_shared.py): generated documents that share parts
+    (rows, names, heads) in different contexts, extracted in fresh processes in pair-covering orders with the returned results digested
+    again afterwards; every document's generator held at its yields while the same / another thread extracts the same, a sibling and a
+    document of the yielded type (forked child + watchdog: a blocked extraction is a violation, never a hang of the check); every
+    functools cache wrapper of the package wrapped by a recorder: handed-out values unmodified, cached == uncached after real histories;
   * search(): interleavings of real sections explored directly (phase granularity exhaustively for
     k <= 3, event granularity depth-first for k = 2, random beyond), font-cache and AES history checks.
 """
@@ -67,8 +72,9 @@ from run import Broken, Violation, Infra
 
 sys.path.insert(0, os.path.dirname(os.path.abspath(__file__)))
 import c15_globals as G  # noqa: E402  (settings / registries / generic section scheduler / import histories)
+import c15_shared as S   # noqa: E402  (template families / suspended generators / cache wrappers found at run time)
 
-GEN = ["GlobalWrites"]
+GEN = ["GlobalWrites", "Isolation"]
 RULE = ("patch section: every edge of the model's coarse-turn state graph for k<=3 threads (+random k=4,5), bodies raise at random; "
         "caches: random key / (font, glyph ids) histories with repeats, evictions and failing keys, all ordered pairs of a family of "
         "font programs with equal length and identical table directory; round-key cache: all region-granularity interleavings of two "
@@ -78,7 +84,13 @@ RULE = ("patch section: every edge of the model's coarse-turn state graph for k<
         "fixtures + generated + damaged documents + 6 documents nested 1500 levels deep + documents declaring unknown charset labels; "
         "setting sections: for every function that writes an interpreter-global setting all 'A i steps, B j steps' line schedules over "
         "(longest-running doc x deep docs / itself / a second / a failing doc); import histories: a seeded permutation of the router's "
-        "extractor modules and its reverse in pristine interpreters, every loaded probe document re-extracted after every step. "
+        "extractor modules and its reverse in pristine interpreters, every loaded probe document re-extracted after every step; "
+        "template families: ~10 families of small generated documents (RTF / HTML / XLSX / CSV / TXT / ZIP / TAR / EML) that agree byte "
+        "for byte on a part (table row, paragraph, file / member name, length + first 4 kB) in different contexts (ragged vs rectangular "
+        "table), each extracted in a fresh process in an order that makes every ordered pair adjacent, returned results digested again "
+        "at the end; suspended generators: every document's generator held at its first yields (archives / mailboxes: at two, thorough: "
+        "three) while the same and another thread extract the same document, a sibling and a document of the yielded result's type, under "
+        "a watchdog; every functools cache wrapper found at run time, real argument histories. "
         "distinct = distinct (schedule | history | sequence); non-trivial = "
         "at least two sections overlap | a repeated key | a sequence of >= 2 documents")
 ASSUMPTIONS = [
@@ -99,6 +111,11 @@ ASSUMPTIONS = [
     "setting sections are preempted at source-line boundaries, one preemption per thread; writers are found syntactically (aliases of "
     "imports resolved) or by wrapped setters at run time — a setter stored in a variable before the recorder is installed escapes both, "
     "not the snapshots",
+    "S2T.YieldLock: one lock, non re-entrant, every generator segment needs it; the tie to the source is the generated fact that no "
+    "yield of a result generator is lexically inside a `with` over a lock / section and no generator calls .acquire (a lock reached "
+    "through a helper function or held by a third-party object is only seen by the suspended-generator oracle)",
+    "S2T.CacheAlias: unbounded memo; immutability of cached values is read off the return ANNOTATION of the decorated function (the "
+    "run-time recorder compares the handed-out objects themselves on the explored inputs)",
     "registry changes made by modules OUTSIDE the package at import / first use (openpyxl: XML namespace prefixes, atexit) are judged "
     "through the probe documents' results only; codec / alias / mimetypes entries are seen through the probed labels and map digests",
 ]
@@ -106,6 +123,8 @@ TRUSTED = ["controlled schedulers (Controlled for sections, CallCtl for calls) +
            "the font / PDF writers of the harness (assemble_ttf, collision_family, make_font_pdf, make_text_pdf)",
            "tools/gen/globalwrites.py (AST inventory of global writes)",
            "harness/props/c15_globals.py (settings / registries snapshot, SectionCtl scheduler, deep / charset document writers, import-history child)",
+           "tools/gen/isolation.py (AST + run-time inventory of yields inside with-blocks, lock-like objects, cache return annotations)",
+           "harness/props/c15_shared.py (family document writers, forked children with watchdog, CacheRecorder)",
            "CPython threading.Lock, contextlib.contextmanager, try/finally, generator close semantics"]
 
 REPO = os.environ.get("S2T_REPO", "/repo")
@@ -2306,6 +2325,177 @@ def replay_setting_section(ctx, st, rp):
 
 
 
+
+# =============================================================================================
+#  template families / suspended generators / cache wrappers found at run time (see c15_shared.py)
+# =============================================================================================
+def oracle_families(ctx, st):
+    """judges the family sequences that _baseline() ran in forked children while this process had not extracted anything"""
+    for seq, ok, what, key in st.get("family_sequences", []):
+        ctx.case(("family-seq", tuple(seq)), nontrivial=True)
+        ctx.count("family-sequence/" + seq[0].split("/")[1])
+        if not ok:
+            return [Violation(key, what, {"kind": "family-sequence", "seq": seq})]
+    return []
+
+
+def _content_probes(st):
+    """{result class name: smallest healthy document whose first result has that class} — what to extract while an archive /
+    mailbox is suspended after yielding a result of that class (computed in a forked child: this process stays pristine)"""
+    if "content_probes" in st:
+        return st["content_probes"]
+    docs, baseline = st["docs"], st["baseline"]
+
+    def work(emit):
+        import sharepoint2text
+        probes = {}
+        for n, p in sorted(docs, key=lambda d: os.path.getsize(d[1])):
+            if baseline[n].startswith("ERR") or "aesV5" in n or os.path.getsize(p) > 200_000:
+                continue
+            try:
+                gen = sharepoint2text.read_file(p)
+                c = next(gen, None)
+                gen.close()
+            except Exception:  # noqa: BLE001
+                continue
+            if c is not None:
+                probes.setdefault(type(c).__name__, n)
+        emit({"probes": probes})
+    lines, _fin = S._child(work, 120)
+    st["content_probes"] = next((ln["probes"] for ln in lines if "probes" in ln), {})
+    return st["content_probes"]
+
+
+SUSPENDED_TIMEOUT = 20.0
+
+
+def run_suspended_oracle(ctx, st):
+    """runs from _baseline(), i.e. in forked children of the still pristine harness process (a failing case replays from the
+    same state: a fresh process)"""
+    by_name, baseline = dict(st["docs"]), st["baseline"]
+    probes = _content_probes(st)
+    plan = S.suspended_plan(st["docs"], baseline, ctx.rng, ctx.thorough, probes)
+    timeout = SUSPENDED_TIMEOUT if not ctx.thorough else 60.0
+    recs, hung, stopped = S.run_suspended(by_name, plan, probes, extract_digest, timeout, t_budget=ctx.n(9, 40))
+    out = {"recs": recs, "stopped": stopped, "violation": None, "infra": None}
+    bad = S.judge_suspended(recs, hung, baseline, timeout)
+    if bad:
+        what, rp = bad
+        key = "suspended.extraction-blocked-by-unfinished-generator" if "does not finish" in what else "suspended.result-depends-on-unfinished-generator"
+        if "does not finish" in what:
+            # a loaded machine is not a deadlock: the single case again, alone, with twice the patience
+            r1, h1, _ = S.run_suspended(by_name, [(rp["a"], rp["k"], [(rp["b"], rp["mode"])], False)], {}, extract_digest, 2 * timeout)
+            again = S.judge_suspended([r for r in r1 if r["k"] == rp["k"]], h1, baseline, 2 * timeout)
+            if again is None:
+                ctx.notes.append(f"suspended-generator case {rp} was silent for {timeout:.0f} s but finishes alone: machine load, not judged")
+                return out
+            what, rp = again
+        if "does not finish" not in what:
+            # is it the suspension, or the history of the child (documents extracted before in the same child)?
+            r1, h1, _ = S.run_suspended(by_name, [(rp["a"], rp["k"], [(rp["b"], rp["mode"])], False)], {}, extract_digest, timeout)
+            if not S.judge_suspended([r for r in r1 if r["k"] == rp["k"]], h1, baseline, timeout):
+                hist = []
+                for r in recs:
+                    for n in (r["a"], r["b"]):
+                        if not hist or hist[-1] != n:
+                            hist.append(n)
+                    if all(r[k] == rp[k] for k in ("a", "k", "b", "mode")):
+                        break
+                ok, what2, key2 = S.check_family_sequence(by_name, hist, baseline, _digest_results)
+                if not ok:
+                    key, what, rp = key2, what2, {"kind": "family-sequence", "seq": hist}
+                else:
+                    what += " (seen after the earlier cases of the same child; the single case alone does not reproduce it)"
+        out["violation"] = (key, what, rp)
+    elif hung:
+        out["infra"] = f"suspended-generator child failed: {hung}"
+    return out
+
+
+def oracle_suspended(ctx, st):
+    """judges what run_suspended_oracle() saw"""
+    res = st.get("suspended") or run_suspended_oracle(ctx, st)
+    for r in res["recs"]:
+        ctx.case(("suspended", r["a"], r["k"], r["b"], r["mode"]), nontrivial=True)
+        ctx.count("suspended/" + r["mode"] + ("/self" if r["a"] == r["b"] else "/other-document"))
+    ctx.coverage["suspended_cases"] = len(res["recs"])
+    if res["stopped"]:
+        ctx.notes.append(f"suspended-generator exploration stopped by its time budget at {res['stopped'][0]['stopped']} ({len(res['recs'])} cases judged)")
+    if res["violation"]:
+        return [Violation(*res["violation"])]
+    if res["infra"]:
+        raise Infra(res["infra"])
+    return []
+
+
+def replay_suspended(ctx, st, rp):
+    docs = corpus(ctx, st["wd"], st["pdfs"])
+    by = dict(docs)
+    if rp["a"] not in by or rp["b"] not in by:
+        return True, "documents of the recorded case are generated per seed; re-run with the recorded VERIF_SEED"
+    base = {rp["b"]: isolated_digest(by[rp["b"]])}
+    plan = [(rp["a"], rp["k"], [(rp["b"], rp["mode"])], False)]
+    recs, hung, _ = S.run_suspended(by, plan, {}, extract_digest, SUSPENDED_TIMEOUT)
+    recs = [r for r in recs if r["k"] == rp["k"]]
+    bad = S.judge_suspended(recs, hung, base, SUSPENDED_TIMEOUT)
+    if bad:
+        return False, bad[0]
+    if not recs:
+        return True, f"read_file({rp['a']}) no longer yields a result #{rp['k']}"
+    return True, S.describe_suspended(recs[0]) + ": finishes with its isolated digest"
+
+
+def _cached_pass_docs(ctx, st):
+    """family documents + one small healthy document per extension (a seeded choice)"""
+    names = [n for n, _ in st["docs"] if n.startswith("family/")]
+    by_ext = {}
+    for n, p in st["docs"]:
+        if not n.startswith("family/") and not st["baseline"][n].startswith("ERR") and os.path.getsize(p) < 150_000 and "aesV5" not in n:
+            by_ext.setdefault(S._ext(n), []).append(n)
+    for e in sorted(by_ext):
+        names.append(ctx.rng.choice(sorted(by_ext[e])))
+    return names
+
+
+def check_cached_pass(by_name, names):
+    _preimport()           # the cache wrappers live in lazily imported extractor modules
+    with S.CacheRecorder() as rec:
+        for n in names:
+            rec.current = n
+            extract_digest(by_name[n])
+        rec.current = None
+        found = S.check_cached_callables(rec)
+    return rec, found
+
+
+def oracle_cached_callables(ctx, st):
+    """every functools cache wrapper of the package (found at run time), real argument histories: the handed-out values are not
+    modified afterwards and cached == uncached after the history"""
+    by_name = dict(st["docs"])
+    names = _cached_pass_docs(ctx, st)
+    rec, found = check_cached_pass(by_name, names)
+    ctx.coverage["cached_callables"] = {k[0].split(".")[-1] + "." + k[1]: len(v) for k, v in rec.records.items()}
+    for k, v in rec.records.items():
+        for ak in v:
+            ctx.case(("cached-callable", k, ak), nontrivial=True)
+        ctx.count("cached-callable/" + k[1] + ("/called" if v else "/never-called"))
+    out = []
+    for key, what, site, doc in found[:1]:
+        # shrink the history: the documents up to the one that made the first call are not needed if two suffice
+        seq = names
+        if doc in names:
+            for other in names:
+                if other == doc:
+                    continue
+                _r, f2 = check_cached_pass(by_name, [doc, other])
+                if any(s2 == site for _k, _w, s2, _d in f2):
+                    seq = [doc, other]
+                    what = [w for _k, w, s2, _d in f2 if s2 == site][0]
+                    break
+        out.append(Violation(key, f"after extracting {seq}: " + what, {"kind": "cached-callable", "docs": seq, "site": list(site)}))
+    return out
+
+
 def _preimport():
     """import (not run) every extractor module so that the forked baseline children do not pay for it"""
     from sharepoint2text.parsing import router
@@ -2336,6 +2526,11 @@ def corpus(ctx, wd, pdfs):
     # documents nested deeper than the default recursion limit; documents that declare charset labels Python does not know
     docs += G.deep_docs(os.path.join(wd.docs, "deep"))
     docs += G.charset_docs(os.path.join(wd.docs, "charset"), probe_labels(ctx)[: (8 if not ctx.thorough else 40)])
+    # template families: small documents that agree byte for byte on parts (rows, names, heads) in different contexts
+    fdocs, fams = S.family_docs(os.path.join(wd.docs, "family"))
+    docs += fdocs
+    _FAMILIES.clear()
+    _FAMILIES.update(fams)
     # damaged copies: truncated / bit-flipped fixtures of several formats
     picks = [d for d in docs if d[0].endswith((".pdf", ".docx", ".xlsx", ".odt", ".zip", ".7z", ".epub", ".eml", ".rtf", ".doc", ".pptx"))]
     for name, p in ctx.rng.sample(picks, min(len(picks), 10)):
@@ -2357,6 +2552,8 @@ def corpus(ctx, wd, pdfs):
         docs.append(("damaged/" + os.path.basename(q), q))
     return docs
 
+
+_FAMILIES = {}
 
 DECLARED_CACHES = {("sharepoint2text.parsing.extractors.pdf.pdf_extractor", "_FONT_CACHE"),
                    ("sharepoint2text.parsing.extractors.pdf._pypdf_aes_fallback", "_ROUND_KEY_CACHE"),
@@ -2679,6 +2876,12 @@ def _baseline(ctx, st):
     st["docs"], st["baseline"] = docs, baseline
     by_name = dict(docs)
     st["fresh_sequences"] = [(seq,) + check_fresh_sequence(by_name, seq, baseline) for seq in paired_sequences([n for n, _ in docs])]
+    t1 = time.time()
+    st["family_sequences"] = S.run_family_sequences(by_name, _FAMILIES, baseline, _digest_results)
+    ctx.coverage["family_sequences_s"] = round(time.time() - t1, 2)
+    t1 = time.time()
+    st["suspended"] = run_suspended_oracle(ctx, st)
+    ctx.coverage["suspended_generators_run_s"] = round(time.time() - t1, 2)
     ctx.coverage["baseline_docs"] = len(docs)
     ctx.coverage["baseline_failing_docs"] = sum(1 for d in baseline.values() if d.startswith("ERR"))
     ctx.coverage["baseline_s"] = round(time.time() - t0, 2)
@@ -2706,6 +2909,9 @@ def model_free_oracles(ctx, st):
         parts = [("oracle:line-granularity _get_round_keys", lambda: oracle_lru_lines(ctx, ctx.n(4, 60))),
                  ("oracle:fresh-process sequences", lambda: oracle_fresh_sequences(ctx, st)),
                  ("oracle:lru_cache sites", lambda: corr_lru_decorated(ctx)),
+                 ("oracle:template families", lambda: oracle_families(ctx, st)),
+                 ("oracle:suspended generators", lambda: oracle_suspended(ctx, st)),
+                 ("oracle:cached callables", lambda: oracle_cached_callables(ctx, st)),
                  ("oracle:early exit", lambda: oracle_early_exit(ctx, st)),
                  ("oracle:gated documents", lambda: oracle_gated_docs(ctx, st, ctx.n(6, 60))),
                  ("oracle:sequences and threads", lambda: seq_oracle(ctx, wd, st["docs"], st["baseline"], aes_state, st)),
@@ -2908,6 +3114,26 @@ def _replay(ctx, payload):
             base = {n: isolated_digest(by[n]) for n in {rp["a"], rp["b"]}}
             ok, what, hit = check_gated(by, base, tuple(rp["gate"]), rp["a"], rp["b"], rp["where"])
             return ok, what
+        finally:
+            tempfile.tempdir = old_tmp
+    if kind in ("family-sequence", "suspended", "cached-callable"):
+        wd = st["wd"]
+        old_tmp = tempfile.tempdir
+        tempfile.tempdir = wd.tmp
+        try:
+            if kind == "suspended":
+                return replay_suspended(ctx, st, rp)
+            by = dict(corpus(ctx, wd, st["pdfs"]))
+            names = rp["seq"] if kind == "family-sequence" else rp["docs"]
+            missing = [n for n in names if n not in by]
+            if missing:
+                return True, f"documents {missing} are generated per seed; re-run with the recorded VERIF_SEED"
+            if kind == "family-sequence":
+                ok, what, _key = S.check_family_sequence(by, rp["seq"], None, _digest_results, isolated_digest)
+                return ok, what
+            _rec, found = check_cached_pass(by, names)
+            hit = [w for _k, w, site, _d in found if list(site) == rp["site"]]
+            return (not hit), (hit[0] if hit else f"every value handed out by {'.'.join(rp['site'])} is unmodified and equals the uncached result")
         finally:
             tempfile.tempdir = old_tmp
     if kind in ("import-history", "setting-section"):
